@@ -15,6 +15,7 @@ from sx import inv as I
 from sx.arr import SArr, _as_sarr
 from sx.graph import SymDiGraph
 from sx.maps import LazyIdMap
+from sx.rt import reraise_model_gap  # noqa: F401
 from sx.rt import (And, If, Implies, Not, Or, PathAbort, SBool, SInt, SReal, Unsupported, count, cur, int_shim,
                    same_value, toint, unwrap, zb)
 
@@ -388,6 +389,7 @@ def paint(ctx, p, cfg):
     except Unsupported:
         raise
     except Exception as e:
+        reraise_model_gap(e)
         # the caller restores the painted pixels after a refusal
         for old, cs in groups:
             for c in cs:
@@ -461,6 +463,7 @@ def other(ctx, p, cfg):
     except Unsupported:
         raise
     except Exception as e:
+        reraise_model_gap(e)
         return None, e, info
     return act, None, info
 
@@ -682,6 +685,7 @@ def _harness(ctx, cfg):
         except Unsupported:
             raise
         except Exception as e:
+            reraise_model_gap(e)
             ctx.tag(f"inverse_raised:{type(e).__name__}")
             ctx.oblige("C01.inverse_applies", False, "C01")
             return
@@ -715,6 +719,7 @@ def _harness(ctx, cfg):
             except Unsupported:
                 raise
             except Exception as e:
+                reraise_model_gap(e)
                 ctx.tag(f"second_inverse_raised:{type(e).__name__}")
                 ctx.oblige("C01.inverse_applies_again", False, "C01")
                 return
